@@ -627,10 +627,18 @@ pub fn child18(seed: u64, idx: u64) -> Value {
                 }
                 .min(1 << 16);
                 let params: Vec<u8> = (0..plen_params).map(|_| if rng.chance(1, 6) { *rng.pick(&[15u8, 16, 31, 32, 255]) } else { rng.usize_below(15) as u8 }).collect();
-                let qlen = match rng.usize_below(8) {
-                    0 => n.saturating_sub(1),
-                    1 => n + 1,
-                    _ => n,
+                // one call in sixteen claims a block size far beyond what the vectors hold
+                // (wrap-around hunters: usize::MAX, 2^63, 2^32 +- 1, 2^31)
+                let huge_n = rng.chance(1, 16);
+                let n = if huge_n { *rng.pick(&[usize::MAX, usize::MAX - 1, 1usize << 63, (1usize << 32) + 1, 1usize << 32, (1usize << 32) - 1, 1usize << 31, (1usize << 24) + 3]) } else { n };
+                let qlen = if huge_n {
+                    rng.usize_below(5)
+                } else {
+                    match rng.usize_below(8) {
+                        0 => n.saturating_sub(1),
+                        1 => n + 1,
+                        _ => n,
+                    }
                 };
                 let rlen = if rng.chance(1, 8) { qlen + 1 } else { qlen };
                 let plen = if parts > 0 && n >= parts { n / parts } else { 1 };
